@@ -109,6 +109,18 @@ func infoFromCell(cell *hrpc.Cell) (hrpc.RegionInfo, error) {
 		// if default namespace, pretend there's no namespace
 		namespace = regInfo.TableName.Namespace
 	}
+	// The row key is the region name: table_name,start_key,id[.md5.]
+	// Names are ordered with Compare, which relies on that form.
+	fqTable := regInfo.TableName.Qualifier
+	if namespace != nil {
+		fqTable = append(append(append([]byte(nil), namespace...), ':'), fqTable...)
+	}
+	name := cell.Row
+	if len(name) <= len(fqTable) || !bytes.HasPrefix(name, fqTable) || name[len(fqTable)] != ',' ||
+		bytes.IndexByte(name[len(fqTable)+1:], ',') < 0 {
+		return nil, fmt.Errorf("region name %q is not of the form %q,start_key,id in %q",
+			name, fqTable, cell)
+	}
 
 	return NewInfo(
 		regInfo.GetRegionId(),
